@@ -3,11 +3,57 @@ package c16
 
 import (
 	"fmt"
-	"os"
+	"time"
+
+	"github.com/influxdata/influxql"
+	"github.com/influxdata/kapacitor"
+	"verifharness/kit"
 )
 
 // Run is replaced by the property's harness.
 func Run(args []string) int {
-	fmt.Fprintln(os.Stderr, "c16: harness not implemented yet")
-	return 3
+	q, err := kapacitor.NewQuery(`SELECT v FROM "db"."rp".m WHERE a = 1 OR b = 2 AND time >= '2020-01-01T00:00:00Z'`)
+	fmt.Println(err)
+	q.SetStartTime(time.Unix(100, 0))
+	q.SetStopTime(time.Unix(200, 5))
+	s := q.String()
+	fmt.Println(s)
+	st, err := influxql.ParseStatement(s)
+	fmt.Println(err)
+	sel := st.(*influxql.SelectStatement)
+	influxql.WalkFunc(sel.Condition, func(n influxql.Node) {
+		fmt.Printf("%T %v\n", n, n)
+	})
+	e, tr, err := influxql.ConditionExpr(sel.Condition, nil)
+	fmt.Println(e, tr, err)
+	c, err := q.Clone()
+	fmt.Println(c, err)
+
+	tm, err := kit.NewTM(kit.TMOpts{})
+	fmt.Println(err)
+	defer tm.Close()
+	script := `batch
+	|query('SELECT mean(v) FROM "db"."rp".m WHERE a = 1')
+		.period(10s).every(10s).align().groupBy(time(4s), 'host').alignGroup().fill(0)
+	@bsink()
+`
+	task, err := tm.TM.NewTask("t1", script, kapacitor.BatchTask, []kapacitor.DBRP{{Database: "db", RetentionPolicy: "rp"}}, 0, nil)
+	fmt.Println(err)
+	et, err := kapacitor.NewExecutingTask(tm.TM, task)
+	fmt.Println(err)
+	bq, err := et.BatchQueries(time.Unix(1000000007, 0), time.Unix(1000000047, 0))
+	fmt.Println(err)
+	for _, b := range bq {
+		for _, q := range b.Queries {
+			fmt.Println(q.String())
+		}
+	}
+	_, err = et.BatchQueries(time.Unix(1000000007, 0), time.Time{})
+	task, err = tm.TM.NewTask("t2", script, kapacitor.BatchTask, []kapacitor.DBRP{{Database: "dbx", RetentionPolicy: "rp"}}, 0, nil)
+	fmt.Println(err)
+	et, err = kapacitor.NewExecutingTask(tm.TM, task)
+	fmt.Println(err)
+	_, err = et.BatchQueries(time.Unix(1000000007, 0), time.Unix(1000000047, 0))
+	fmt.Println(err)
+	return 0
 }
